@@ -3,7 +3,7 @@
    view is the hand-written files + what earlier runs left (prior) + the overlay; no absolute path, no clock.
    Only statements here; proofs in Proofs/GenSigmaProofs.v, GenProofs.v, GenBaseProofs.v, GenWitnessProofs.v. *)
 From Coq Require Import List String Bool Permutation.
-From Shoot Require Import Model.Gen Proofs.GenBaseProofs Proofs.GenProofs Proofs.GenSigmaProofs Proofs.GenResetProofs Proofs.GenWitnessProofs.
+From Shoot Require Import Model.Gen Proofs.GenBaseProofs Proofs.GenProofs Proofs.GenSigmaProofs Proofs.GenMapSigmaProofs Proofs.GenNewProofs Proofs.GenResetProofs Proofs.GenWitnessProofs.
 Import ListNotations.
 Local Open Scope string_scope.
 
@@ -40,6 +40,21 @@ Theorem C07_refuted_K_rest_alias_dup :
 Proof. exact (conj alias_dup_not_injective (conj legal_id (conj legal_rev alias_dup_order_dependent))). Qed.
 Print Assumptions C07_refuted_K_rest_alias_dup.
 
+(* mapper/check.go nilCheckWrite ranges over srcPtrTypeMap / destPtrTypeMap and sorts afterwards *)
+Theorem C07_map_nil_check_write_oracle_irrelevant : forall o1 o2 fs sel ptrs,
+  legal o1 -> legal o2 -> NoDup (keys ptrs) ->
+  snd (nil_check_write o1 fs sel ptrs) = snd (nil_check_write o2 fs sel ptrs) /\
+  forall k, alookup k (fst (nil_check_write o1 fs sel ptrs)) = alookup k (fst (nil_check_write o2 fs sel ptrs)).
+Proof. exact nil_check_write_oracle. Qed.
+Print Assumptions C07_map_nil_check_write_oracle_irrelevant.
+
+(* mapper MakeData + template, no guard: same stale flag, same rendered file for any two iteration orders *)
+Theorem C07_map_make_oracle_irrelevant : forall o1 o2 c dp dv st v T,
+  legal o1 -> legal o2 ->
+  same_src map_render map_render (map_make o1 c dp dv st v T) (map_make o2 c dp dv st v T).
+Proof. exact map_make_oracle. Qed.
+Print Assumptions C07_map_make_oracle_irrelevant.
+
 (* main.go's write loop ranges over the source map: the directory afterwards is the same *)
 Theorem C07_write_loop_order_irrelevant : forall o1 o2 (sm prior : gfiles),
   legal o1 -> legal o2 -> NoDup (keys sm) -> NoDup (keys prior) ->
@@ -65,6 +80,13 @@ Theorem C07_rest_run_independent : forall p c o1 o2 prior1 prior2,
   run_generate o1 p prior1 c = run_generate o2 p prior2 c.
 Proof. exact rest_run_independent. Qed.
 Print Assumptions C07_rest_run_independent.
+
+(* new, outside (a superset of) the input class of K_embed_order / K_aio_overlay_stale: no struct embeds a struct *)
+Theorem C07_new_run_independent : forall p c o1 o2 prior1 prior2,
+  c_sub c = CNew -> specified c = false -> no_embedding (hand_of (p_hw p)) ->
+  run_generate o1 p prior1 c = run_generate o2 p prior2 c.
+Proof. exact new_run_independent. Qed.
+Print Assumptions C07_new_run_independent.
 
 (* ... and with -type=A,B when every named type is declared in one file in both directory states *)
 Theorem C07_blind_specified_independent :
@@ -110,3 +132,16 @@ Theorem C07_refuted_K_aio_overlay_stale :
   toks_of_files (run_generate id_oracle (mkpkg hw_as2) stale_as c_as) <> toks_of_files (run_generate id_oracle (mkpkg hw_as2) [] c_as).
 Proof. exact aio_overlay_stale_history_dependent. Qed.
 Print Assumptions C07_refuted_K_aio_overlay_stale.
+
+(* ---- non-vacuity *)
+Example C07_example_oracles : legal id_oracle /\ legal rev_oracle.
+Proof. exact (conj legal_id legal_rev). Qed.
+
+Example C07_example_new_guard : no_embedding (hand_of hw_ab) /\ ~ no_embedding (hand_of hw_eo).
+Proof.
+  split; [apply no_embeddingb_ok; reflexivity|].
+  intros H. assert (Hin : In ("f.go", hfile1 "f.go" [strct "Son" [IEmbed "Base" false false; IField (fld "k" "string")]; strct "Base" [IField (fld "z" "string")]],
+                              HStruct {| ss_name := "Son"; ss_tparams := []; ss_hasdoc := false; ss_dgetter := false; ss_dsetter := false;
+                                         ss_items := [IEmbed "Base" false false; IField (fld "k" "string")] |}) (hand_of hw_eo)) by (left; reflexivity).
+  specialize (H _ _ _ Hin). inversion H as [|? ? Hx _]. exact Hx.
+Qed.
